@@ -76,6 +76,7 @@ func cmdRun(args []string) int {
 	budget := fs.Int("budget", 0, "instruction budget per path")
 	sched := fs.Int("sched", 0, "0 low, 1 high, 2 explore")
 	mapOrder := fs.Bool("map-order", false, "explore map iteration orders")
+	preempt := fs.Int("preempt", 1, "preemption bound under --sched 2")
 	trace := fs.Bool("trace", false, "instruction trace")
 	logdir := fs.String("solver-log", "", "directory for solver transcripts")
 	full := fs.Bool("full", false, "print full result")
@@ -102,7 +103,7 @@ func cmdRun(args []string) int {
 	}
 	fmt.Fprintf(os.Stderr, "loaded+built in %.2fs\n", time.Since(t0).Seconds())
 	job := interp.Job{Name: *fn, Func: modulePath + "/" + overlayDir + "/" + *pkg + "." + *fn, Params: params, MaxPaths: *maxPaths,
-		Opts: interp.Options{Budget: *budget, Sched: *sched, MapOrder: *mapOrder}}
+		Opts: interp.Options{Budget: *budget, Sched: *sched, MapOrder: *mapOrder, MaxPreempt: *preempt}}
 	res, err := eng.RunJob(job, *workers)
 	if err != nil {
 		fmt.Fprintln(os.Stderr, "run:", err)
